@@ -295,8 +295,7 @@ def check_history(lines):
         got = run_one(app, log, line)
         if i == 0:
             continue
-        fapp, flog = build_history_app()
-        want = run_one(fapp, flog, line)
+        want = _fresh_run(line)
         d = diff_fields(got, want)
         if d:
             fails.append(("history|%s|%s-differs" % (_history_class(lines[:i]), line_class(line)),
@@ -307,6 +306,17 @@ def check_history(lines):
 
 
 _FRESH = {}
+_FRESH_RUN = {}
+
+
+def _fresh_run(line):
+    """what a freshly built application gives for this line (computed once per line: a new application and new streams
+    every time give the same result)"""
+    if line not in _FRESH_RUN:
+        fapp, flog = build_history_app()
+        _FRESH_RUN[line] = run_one(fapp, flog, line)
+    return _FRESH_RUN[line]
+
 
 
 def _fresh_fails(line):
